@@ -41,7 +41,9 @@ Conform(e) == IF "total" \in DOMAIN e THEN Total(e) ELSE FirstBad(<<
     <<"parses", e.err = "">>,
     <<"tree", e.err # "" \/ e.real = StripB(e.src)>>,
     <<"refparse", e.err # "" \/ ~IsExprOnly(e) \/ Strip(RefParse(UE(e.src[1].e))) = e.real[1].e>>,
-    <<"spans", e.err # "" \/ e.nodes = <<>> \/ SpansOK(e)>>
+    <<"spans", e.err # "" \/ e.nodes = <<>> \/ SpansOK(e)>>,
+    <<"regenerates_same_text", "idem" \notin DOMAIN e \/ e.idem # "no">>,
+    <<"consistent", "consistent" \notin DOMAIN e \/ e.consistent # "no">>
   >>)
 
 TNext == /\ TEnabled /\ UNCHANGED dummy
